@@ -1098,3 +1098,6 @@ func (s *State) Remove(ns NS, ids []any) {
 	}
 	c.Docs = keep
 }
+
+// Tuples exposes the index key tuples of a document.
+func Tuples(doc D, key D) [][]any { return tuples(doc, key) }
